@@ -1,7 +1,7 @@
 (* C06: the theorems of Props/C06.v assembled from the lemma files (statements repeated verbatim in Props/C06.v) *)
 From Coq Require Import ZArith List Bool Lia Arith.
 From EN Require Import Lib.Bytes Frame.Framer Frame.ReadUntil Frame.BufReadUntil Frame.JsonRaw Frame.ErrSites Frame.Generic
-  Stream.Consumer Gen.ParamsC06 Run.C06 Proofs.C06_nocrash Proofs.C06_progress Proofs.C06_buffered.
+  Stream.Consumer Gen.ParamsC06 Run.C06 Proofs.C06_nocrash Proofs.C06_progress Proofs.C06_buffered Proofs.C06_bufloop Proofs.C06_suffix.
 Import ListNotations.
 
 (* ------------------------------------------------------------------------------------------------------------------
@@ -226,3 +226,89 @@ Proof.
   - intros fuel c chunk Hf. apply (cstep_stops F held HF); assumption.
 Qed.
 
+
+(* ------------------------------------------------------------------------------------------------------------------
+   skip_errors_terminates for BufferedStreamDataConsumer: over any buffer-filling framer whose events make progress
+   (bprogressive: _buffered_readuntil, buffered fixed-size, the generic wrapper over any progressive copying framer, and
+   their lifted versions), with a non-empty receive buffer: the number of packets + parse errors plus the bytes still
+   owed (re-injected remainder + what the suspended generator counts as received) never exceeds the bytes delivered,
+   for every chunk list; and the drain loop of a receive round ends with StopIteration (or the round ended in a
+   RuntimeError) as soon as the fuel covers the backlog.
+   ------------------------------------------------------------------------------------------------------------------ *)
+Lemma skip_errors_terminates_buffered_pf :
+  (forall P sep limit ke (dec : decoder P), 1 <= length sep -> bprogressive (bru_framer sep limit ke dec) fst) /\
+  (forall P size (dec : decoder P), 1 <= size -> bprogressive (bfx_framer size dec) (fun n => n)) /\
+  (forall P (F : framer P) held alloc, progressive F held -> bprogressive (bwrap_generic F alloc) held) /\
+  (forall P (B : bframer (epkt P)) bh, bprogressive B bh -> bprogressive (lift_bframer B) bh) /\
+  (forall P (B : bframer P) (sizehint : nat) (bh : bst_ B -> nat),
+      bprogressive B bh -> 1 <= balloc B sizehint ->
+      (forall fuel chunks,
+          let '(c', evs) := bcdeliver B sizehint fuel (bcinit B) chunks in
+          nevents evs + psi B bh c' <= Proofs.C06_progress.total_len chunks) /\
+      (forall fuel c (data : bytes), rested_b B c -> psi B bh c + length data < fuel ->
+          let '(c', evs, _) := bcstep B sizehint fuel c data in
+          In RCrash evs \/ snd (bcnext B sizehint c' None) = RStop)).
+Proof.
+  split; [intros; apply bru_bprogressive; assumption|].
+  split; [intros; apply bfx_bprogressive; assumption|].
+  split; [intros; apply bwrap_bprogressive; assumption|].
+  split; [intros; apply lift_bprogressive; assumption|].
+  intros P B sizehint bh HB Ha. split.
+  - intros fuel chunks.
+    pose proof (bcdeliver_psi B sizehint bh HB Ha fuel chunks (bcinit B) (rested_b_init B)) as H.
+    destruct (bcdeliver B sizehint fuel (bcinit B) chunks) as [c' evs]. destruct H as [_ H].
+    rewrite (psi_init B bh) in H. lia.
+  - intros fuel c data Hr Hf. apply (bcstep_stops B sizehint bh HB Ha); assumption.
+Qed.
+
+(* ------------------------------------------------------------------------------------------------------------------
+   the unread remainder: what every packet / parse error carries is exactly a suffix of the bytes the parser had been
+   given since its previous event (copying: accumulated buffer ++ chunk; buffer-filling: the received prefix of the
+   receive buffer; raw JSON: everything received for this document)
+   ------------------------------------------------------------------------------------------------------------------ *)
+Lemma error_remainder_is_suffix_pf :
+  (forall P sep limit ke (dec : decoder P) st chunk,
+      event_suffix (ru_acc st ++ chunk) (ffeed (ru_framer sep limit ke dec) st chunk)) /\
+  (forall P size (dec : decoder P) st chunk,
+      event_suffix (rx_acc st ++ chunk) (ffeed (rx_framer size dec) st chunk)) /\
+  (forall P sep limit ke (dec : decoder P) st mem n,
+      bevent_suffix (firstn (fst st + n) mem) (bfeed (bru_framer sep limit ke dec) st mem n)) /\
+  (forall P size (dec : decoder P) nread mem n,
+      bevent_suffix (firstn (nread + n) mem) (bfeed (bfx_framer size dec) nread mem n)) /\
+  (forall P limit (dec : decoder P) st chunk,
+      event_suffix (j_acc st ++ chunk) (ffeed (json_framer limit dec) st chunk)).
+Proof.
+  split; [intros; apply ru_feed_suffix|].
+  split; [intros; apply rx_feed_suffix|].
+  split; [intros; apply bru_feed_suffix|].
+  split; [intros; apply bfx_feed_suffix|].
+  intros; apply json_feed_suffix.
+Qed.
+
+(* ------------------------------------------------------------------------------------------------------------------
+   BufferedStreamDataConsumer.__save_remainder_in_buffer raises ValueError when the remainder is longer than the receive
+   buffer (modelled in Run/C06.v as the event [9, 2]).  Through the generic buffered wrapper the generator is sent
+   buffer[:nbytes]; the remainder is no longer than that slice -- hence fits -- for a loader that only moves forward
+   (after EOF on the previous content it reads into the new slice before it can return or fail) and for a decompressor
+   whose unused_data is part of the last slice.
+   ------------------------------------------------------------------------------------------------------------------ *)
+Lemma remainder_fits_receive_buffer_pf :
+  (forall P limit (load : bytes -> lres P) expected st (content ch : bytes),
+      st = None /\ content = [] \/ st = Some (content, length content) ->
+      (forall p pos, load (content ++ ch) = LDone p pos -> length content <= pos) ->
+      (forall k pos, load (content ++ ch) = LRaise k pos -> length content <= pos) ->
+      match ffeed (fb_framer limit load expected) st ch with
+      | Done _ rest | Fail _ rest => length rest <= length ch
+      | _ => True
+      end) /\
+  (forall P D dnew (dd : D -> bytes -> (D * bytes) + Z) deof dunused expected (inner : bytes -> ores P) inner_declared st (ch : bytes),
+      (forall d c d' out, dd d c = inl (d', out) -> deof d' = true -> length (dunused d') < length c) ->
+      match ffeed (cz_framer D dnew dd deof dunused expected inner inner_declared) st ch with
+      | Done _ rest | Fail _ rest => length rest <= length ch
+      | _ => True
+      end).
+Proof.
+  split.
+  - intros. cbn. apply fb_feed_remainder_fits with (content := content); assumption.
+  - intros. cbn. apply cz_remainder_fits; assumption.
+Qed.
